@@ -11,7 +11,8 @@ messages - or exception type); every worker finishes within 20x its isolated lin
 import itertools
 import warnings
 
-from sim import kernel, scenes, seams, threads
+from sim import kernel, scenes, seams, threads, prmspace
+from sim.models import get_path, leaf_paths
 from sim.census import Census
 from sim.digest import chunk_parts, diff_parts
 from sim.minimise import ddmin, shrink_history
@@ -27,7 +28,7 @@ ALL_MERGES_2 = [tuple(1 if i in c else 0 for i in range(10))
 # ------------------------------------------------------------------------------------------
 # jobs
 # ------------------------------------------------------------------------------------------
-def gen_job(rng, cls):
+def gen_job(rng, cls, density=0.25):
     """One worker's workload: a scene and its own per-call parameters."""
     if cls == 'refused':
         scene = scenes.gen_scene(rng, 'two-far')
@@ -35,15 +36,27 @@ def gen_job(rng, cls):
         scene['prms'] = {'MIN_SEP_VALS': [150, 1000], 'MIN_SEP_LIMS': [5000, 10000]}
     else:
         scene = scenes.gen_scene(rng, cls)
-    prms = dict(scene.get('prms') or {})
-    if 'MSA' not in prms and rng.random() < 0.3:
-        prms['MSA'] = rng.choice([2500, 6000, 12000])
-    if rng.random() < 0.3:
-        prms['MAX_HITS_OKTA0'] = rng.choice([0, 1, 5])
-    if rng.random() < 0.2:
-        prms['BASE_LVL_HEIGHT_PERC'] = rng.choice([1, 10, 50])
-    scene['prms'] = prms
+    # distinct per-call parameters per worker: the leaves that make the scene class live, plus a
+    # seeded assignment over the other leaves (`density` of them; 1.0 = every leaf non-default)
+    base = {q: get_path(scene['prms'], q) for q in leaf_paths(scene.get('prms') or {})}
+    dflt = _defaults()
+    pool = [q for q in prmspace.PROCESSING_LEAVES if q not in base
+            and q not in (('MIN_SEP_VALS',), ('MIN_SEP_LIMS',), ('BASE_LVL_LOOKBACK_PERC',))]
+    k = len(pool) if density >= 1.0 else sum(1 for _ in pool if rng.random() < density)
+    extra = prmspace.gen_leaf_values(rng, dflt, n_leaves=0, must=rng.sample(pool, k))
+    for q, v in extra.items():
+        base.setdefault(q, v)
+    scene['prms'] = prmspace.assign_from_leaves(base)
     return scene
+
+
+_DFLT = [None]
+
+
+def _defaults():
+    if _DFLT[0] is None:
+        _DFLT[0] = prmspace.packaged_defaults()
+    return _DFLT[0]
 
 
 def make_job(scene, tag):
@@ -229,18 +242,25 @@ def run_line(seed, out, bump):
 # ------------------------------------------------------------------------------------------
 # (b') systematic single pre-emption: park worker A at every source line it reaches
 # ------------------------------------------------------------------------------------------
-def sweep_jobs(seed):
+def sweep_jobs(seed, dense=True):
     rng = kernel.stream(seed, 'scene')
     ca = rng.choice(['demo-like', 'rng-sensitive', 'merge+split', 'demo-like'])
     cb = rng.choice(['demo-like', 'rng-sensitive', 'split'])
-    return [gen_job(rng, ca), gen_job(rng, cb)]
+    # the parked worker keeps (mostly) default parameters, the other one gets a non-default value
+    # for every leaf: whatever parameter-derived state leaks from B is then wrong for A
+    job_a = gen_job(rng, ca, density=0.1)
+    for _ in range(6):
+        job_b = gen_job(rng, cb, density=1.0 if dense else 0.2)
+        if scenes.probe(job_b, prms=job_b['prms'])['raised'] in (None, 'AmpycloudError'):
+            break
+    return [job_a, job_b]
 
 
 def run_sweep(run, out, bump):
     """Worker `a` is parked at the chosen occurrence of each source line it reaches (one line per
     simulated run); the other worker then runs to completion; `a` resumes. Complete for 'one
     pre-emption at that occurrence of every static line reached', for this job pair."""
-    jobs = sweep_jobs(run['seed'])
+    jobs = sweep_jobs(run['seed'], run.get('dense', True))
     a = run['dir']
     b = 1 - a
     refs = references(jobs, run['seed'])
@@ -415,7 +435,7 @@ def plan(tier, master):
     for (p, d, o) in sweeps:
         for lo in range(0, 900, 15):
             runs.append({'kind': 'sweep', 'seed': kernel.run_seed(PROP, master, f'sweep-{p}'),
-                         'dir': d, 'occ': o, 'lo': lo, 'hi': lo + 15})
+                         'dir': d, 'occ': o, 'lo': lo, 'hi': lo + 15, 'dense': p % 2 == 0})
     n_jobsets = 120 if tier == 'quick' else 3000     # x SCHEDULES_PER_JOBSET simulated runs
     per = 2
     for i in range(0, n_jobsets, per):
